@@ -13,4 +13,47 @@ pub type BasicBlockVec = NonEmptyVec<BasicBlock>;
 #[verifier::external_body] pub struct VariableType { _o: Vec<u8> }
 #[verifier::external_body] pub struct AssignOp { _o: Vec<u8> }
 #[verifier::external_body] pub struct LogArgument { _o: Vec<u8> }
-pub mod ir { pub use super::Meta; pub use super::Statement; }
+pub mod ir { pub use super::Meta; pub use super::Statement; pub use super::Expression; }
+pub type ReportCollection = Vec<Report>;
+#[verifier::external_body] pub struct Report { _o: Vec<u8> }
+#[verifier::external_body] pub struct IRError { _o: Vec<u8> }
+pub type IRResult<T> = Result<T, IRError>;
+#[verifier::external_body] pub struct Declaration { _o: Vec<u8> }
+#[verifier::external_body] pub struct LiftingEnvironment { _o: Vec<u8> }
+impl Declaration {
+    #[verifier::external_body]
+    pub fn new(name: &VariableName, var_type: &VariableType, dimensions: &Vec<Expression>, file_id: &Option<ast::FileID>, location: &ast::FileLocation) -> Declaration { unimplemented!() }
+}
+impl LiftingEnvironment {
+    #[verifier::external_body]
+    pub fn add_declaration(&mut self, declaration: &Declaration) { unimplemented!() }
+}
+// IR lifting of AST nodes (intermediate_representation/lifting.rs): opaque results (T3).
+// Assumed: lifting a statement that the CFG construction hands over never yields an ir::Statement::IfThenElse
+// (control statements are consumed by visit_statement itself) — not needed for the graph-shape invariant.
+impl TryLift<()> for ast::Meta {
+    type IR = Meta; type Error = IRError;
+    #[verifier::external_body] fn try_lift(&self, context: (), reports: &mut ReportCollection) -> Result<Meta, IRError> { unimplemented!() }
+}
+impl TryLift<()> for ast::Statement {
+    type IR = Statement; type Error = IRError;
+    #[verifier::external_body] fn try_lift(&self, context: (), reports: &mut ReportCollection) -> Result<Statement, IRError> { unimplemented!() }
+}
+impl TryLift<()> for ast::Expression {
+    type IR = Expression; type Error = IRError;
+    #[verifier::external_body] fn try_lift(&self, context: (), reports: &mut ReportCollection) -> Result<Expression, IRError> { unimplemented!() }
+}
+impl TryLift<()> for ast::VariableType {
+    type IR = VariableType; type Error = IRError;
+    #[verifier::external_body] fn try_lift(&self, context: (), reports: &mut ReportCollection) -> Result<VariableType, IRError> { unimplemented!() }
+}
+impl TryLift<&ast::Meta> for String {
+    type IR = VariableName; type Error = IRError;
+    #[verifier::external_body] fn try_lift(&self, context: &ast::Meta, reports: &mut ReportCollection) -> Result<VariableName, IRError> { unimplemented!() }
+}
+#[verifier::external_body]
+fn __h_singleton(x: usize) -> (r: HashSet<usize>) ensures r@ == set![x] { HashSet::from([x]) }
+#[verifier::external_body]
+fn __h_union(a: &HashSet<usize>, b: &HashSet<usize>) -> (r: HashSet<usize>) ensures r@ == a@.union(b@) { a.union(b).cloned().collect() }
+#[verifier::external_body]
+fn __h_lift_dimensions(dimensions: &Vec<ast::Expression>, reports: &mut ReportCollection) -> IRResult<Vec<Expression>> { unimplemented!() }
